@@ -36,6 +36,20 @@ type Case struct {
 	N        int    `json:"seeds"`
 }
 
+// seedAt gives the i-th seed of a sweep that starts at base. The seeds are spread over the 31-bit
+// range that math/rand reduces a seed to (a bijective mix of the counter), not consecutive integers:
+// generators seeded with s, s+1, s+2 ... are related - their k-th outputs form a near-arithmetic
+// progression for some k - so that "the distribution over the seed" taken over a run of consecutive
+// seeds is not the distribution over seeds (met once: the 200th draw of `sample --replace -n 30`
+// over 600 consecutive seeds, p = 1e-15 on the unchanged code).
+func seedAt(base int64, i int) int64 {
+	z := uint64(base+int64(i)) + 0x9E3779B97F4A7C15
+	z = (z ^ (z >> 30)) * 0xBF58476D1CE4E5B9
+	z = (z ^ (z >> 27)) * 0x94D049BB133111EB
+	z ^= z >> 31
+	return int64(z%2147483646) + 1
+}
+
 // ---------------------------------------------------------------------------------------
 // exact binomial tails (log-gamma, no normal approximation)
 
@@ -81,13 +95,13 @@ func evaluate(sc scenario, c Case) (map[string]int, error) {
 	counts := map[string]int{}
 	mcounts := map[string]int{}
 	for i := 0; i < c.N; i++ {
-		o, err := sc.run(c.Base + int64(i))
+		o, err := sc.run(seedAt(c.Base, i))
 		if err != nil {
-			return counts, fmt.Errorf("%s, seed %d: %v", sc.name, c.Base+int64(i), err)
+			return counts, fmt.Errorf("%s, seed %d: %v", sc.name, seedAt(c.Base, i), err)
 		}
 		if sc.cells != nil {
 			if _, ok := sc.cells[o]; !ok {
-				return counts, fmt.Errorf("%s, seed %d: outcome %q is not one of the %d possible outcomes", sc.name, c.Base+int64(i), o, len(sc.cells))
+				return counts, fmt.Errorf("%s, seed %d: outcome %q is not one of the %d possible outcomes", sc.name, seedAt(c.Base, i), o, len(sc.cells))
 			}
 			counts[o]++
 		}
@@ -918,7 +932,7 @@ func TestC20Sweeps(t *testing.T) {
 		nontrivial := len(sc.cells) >= 3 || len(sc.mcells) >= 3
 		// one evaluation per seed; the distinct non-trivial cases are the distinct (scenario, seed) pairs
 		for j := 0; j < c.N; j++ {
-			r.Eval(map[string]any{"scenario": sc.name, "seed": c.Base + int64(j)}, nontrivial, "scenario:"+sc.name)
+			r.Eval(map[string]any{"scenario": sc.name, "seed": seedAt(c.Base, j)}, nontrivial, "scenario:"+sc.name)
 		}
 		if nontrivial {
 			r.Extra("nontrivial_seeds:"+sc.name, c.N)
